@@ -19,7 +19,7 @@ def types_of(g):
     return out
 
 
-def run(ctx):
+def _run_main(ctx):
     rng = ctx.rng
     cases, obs, reqs = [], [], []
     for i in range(ctx.n(250)):
@@ -149,3 +149,11 @@ def run(ctx):
         if bad:
             ctx.violate(case, "inferred types differ from the fully annotated graph (Input shape stored in a narrow dtype)",
                         {"site": "infer_types", "what": "types", "edit": "narrow-seed"}, observed=dict(list(bad.items())[:4]))
+
+
+def run(ctx):
+    _run_main(ctx)
+    # history independence (harness/history.py): among the edits, a node swapped for a fresh one of the same class under
+    # the same name with its annotations erased - a later infer_types types the graph as it is now
+    import history
+    history.run(ctx, ["infer", "check"], {"infer": "infer_types on a graph object with a history", "check": "the type check of a graph object with a history"})
